@@ -37,7 +37,7 @@ class Parser(Emitter):
             formulaserror.forget_tracebacks()
 
         single = result
-        for _ in range(2):
+        for _ in range(8):
             # a one-cell range ([[v]]) or one-item array holding an error is that error: it reaches
             # the top as the error of the formula, not as a list with an error object inside
             if isinstance(single, (list, tuple)) and len(single) == 1:
